@@ -47,9 +47,17 @@ def rand_z0(rng, n, kind):
     if kind == 0:
         v = float(rng.choice([50.0, 75.0, 10 ** rng.uniform(0, 3)]))
         return np.full(n, v, dtype=complex)
-    if kind == 1:
-        return (10 ** rng.uniform(0.5, 2.5, n)).astype(complex)
     re_ = 10 ** rng.uniform(0.5, 2.5, n)
+    if n >= 3 and rng.random() < 0.35:
+        # partly equal: some ports agree exactly (in the real part), others
+        # do not
+        for _ in range(int(rng.integers(1, n))):
+            i, j = rng.choice(n, 2, replace=False)
+            re_[j] = re_[i]
+        if len(set(re_.tolist())) == 1:
+            re_[0] *= 2.0
+    if kind == 1:
+        return re_.astype(complex)
     return re_ + 1j * re_ * rng.uniform(-1.5, 1.5, n)
 
 
